@@ -347,6 +347,11 @@ func (g *streamGen) defFor(local byte, gl uint16) *DefOp {
 		if n > len(pfs) {
 			n = len(pfs)
 		}
+		// a known message whose definition lists unlisted field numbers only
+		onlyUnlisted := g.o.Unknown && (len(pfs) == 0 || r.Chance(1, 12)) && g.o.OnlyMesg == 0
+		if onlyUnlisted {
+			n = 0
+		}
 		perm := r.Perm(len(pfs))
 		if g.o.OnlyMesg == gl && g.o.WinLen > 0 {
 			n = g.o.WinLen
@@ -371,7 +376,7 @@ func (g *streamGen) defFor(local byte, gl uint16) *DefOp {
 			d.Fields = append(d.Fields, fd)
 			used[int(pf.Num)] = true
 		}
-		if g.o.Unknown && r.Chance(1, 3) {
+		if g.o.Unknown && (onlyUnlisted || r.Chance(1, 3)) {
 			for k := r.Range(1, 2); k > 0; k-- {
 				if n := unlistedField(r, gl, used); n >= 0 {
 					fd, _ := genAnyField(r, n)
@@ -567,7 +572,7 @@ func genStream(r *Rng, o StreamOpts) *RecStream {
 				gl = pool[r.Intn(len(pool))]
 			}
 		}
-		if len(prof.byMesg[gl]) == 0 && prof.Known(gl) {
+		if len(prof.byMesg[gl]) == 0 && prof.Known(gl) && !(o.Unknown && r.Chance(1, 2)) {
 			gl = 49
 		}
 		// choose a slot
@@ -938,4 +943,53 @@ func manyDefsStream(r *Rng, n int) *RecStream {
 		g.emitData(0, false, 0, []byte{4})
 	}
 	return &RecStream{Header: HeaderSpec{Size: 12 + 2*r.Intn(2), Proto: 0x20, Profile: 2115, HCRC: "ok"}, Ops: g.ops}
+}
+
+// flipStreamArch returns a copy of rs in which every definition declares the
+// other byte order and the multi-byte elements of every record are swapped
+// accordingly: the same field lists, byte for byte, under the opposite
+// architecture flag.
+func flipStreamArch(rs *RecStream) *RecStream {
+	out := &RecStream{Header: rs.Header}
+	var defs [16]*DefOp
+	for _, op := range rs.Ops {
+		switch {
+		case op.Def != nil:
+			nd := *op.Def
+			if nd.Arch == "be" {
+				nd.Arch = "le"
+			} else {
+				nd.Arch = "be"
+			}
+			defs[nd.Local&15] = &nd
+			out.Ops = append(out.Ops, Op{Def: &nd})
+		case op.Data != nil:
+			l := op.Data.Local & 15
+			if op.Data.Comp {
+				l = op.Data.Local & 3
+			}
+			d := defs[l]
+			nd := *op.Data
+			if d != nil {
+				b := unhex(nd.Bytes)
+				off := 0
+				for _, fd := range d.Fields {
+					bi := baseOf(byte(fd[2]))
+					if bi != nil && bi.Size > 1 && !bi.String {
+						for e := off; e+bi.Size <= off+fd[1] && e+bi.Size <= len(b); e += bi.Size {
+							for x, y := e, e+bi.Size-1; x < y; x, y = x+1, y-1 {
+								b[x], b[y] = b[y], b[x]
+							}
+						}
+					}
+					off += fd[1]
+				}
+				nd.Bytes = hexs(b)
+			}
+			out.Ops = append(out.Ops, Op{Data: &nd})
+		default:
+			out.Ops = append(out.Ops, op)
+		}
+	}
+	return out
 }
